@@ -21,15 +21,20 @@ from happysimulator.core.event import Event  # noqa: E402
 from happysimulator.core.simulation import Simulation  # noqa: E402
 from happysimulator.core.temporal import Instant  # noqa: E402
 
+try:  # seed_globals() seeds numpy's global PRNG; import it once here so forked workers inherit it
+    import numpy  # noqa: F401,E402
+except Exception:  # pragma: no cover - numpy is optional
+    pass
+
 from simkit import c08_model as M  # noqa: E402
 from simkit.rng import seed_globals  # noqa: E402
 from simkit.world import InvalidScenario, Monitor, Violation, repo_exception_sig, result, run_sim  # noqa: E402
 
 PROPERTY = "C08"
-RUNS = {"quick": 12_000, "thorough": 600_000}
-WALL = {"quick": 45, "thorough": 1500}
-BATCH = {"quick": 150, "thorough": 1000}
-SELFTEST_RUNS = 40
+RUNS = {"quick": 6_000, "thorough": 600_000}
+WALL = {"quick": 50, "thorough": 1500}
+BATCH = {"quick": 125, "thorough": 1000}
+SELFTEST_RUNS = 24
 RULE = (
     "each case is a generated pipeline of 1-2 stages (Server with Fixed/Dynamic/Weighted concurrency, explicit "
     "Queue+QueueDriver+custom worker, ShiftedServer, RenegingQueuedResource, PooledCycleResource, BatchProcessor, "
@@ -84,11 +89,11 @@ EXPECTED_PROBES = [
     "fault.arrival_at_transition_instant", "fault.capacity_raised_under_backlog",
     "probe.queue_full_reject", "probe.server_reject_overpoll", "probe.server_reject_heavy_head",
     "probe.deadline_expired_drop", "probe.codel_drop", "probe.reneged", "probe.shift_zero_capacity",
-    "probe.shift_capacity_raised", "probe.dynamic_limit_raised", "probe.pooled_arrival_overtakes_dequeued",
+    "probe.shift_capacity_raised", "probe.dynamic_limit_raised", "probe.pooled_handover", "probe.pooled_arrival_during_handover",
     "probe.batch_timeout_flush", "probe.gate_flush", "probe.gate_held", "probe.held_at_end_by_contract",
     "probe.poll_found_nothing", "probe.policy_push_rejected", "probe.two_stage",
 ]
-SHRINK_SKIP = ("kind", "type", "model", "mode", "flow", "flow_weights")
+SHRINK_SKIP = ("kind", "type", "model", "mode", "flow", "flow_weights", "max_p", "weight", "prob")
 SHRINK_BUDGET_S = {"quick": 20.0, "thorough": 60.0}
 
 TICK = M.TICK_NS
@@ -129,7 +134,7 @@ def gen_policy_cfg(rng, allow_balk=True):
             "prob": rng.choice([1.0, 1.0, 0.5, 0.0])}
 
 
-def gen_stage(rng, kind, serial, avoid_shift):
+def gen_stage(rng, kind, serial, avoid_shift, idx=0):
     lim = 1 if serial else rng.randint(1, 4)
     if kind == "server":
         model = rng.choice(["fixed", "fixed", "dynamic", "weighted"])
@@ -143,16 +148,24 @@ def gen_stage(rng, kind, serial, avoid_shift):
             svc = {"mode": "const", "ticks": rng.choice([0, 1, 1, 2, 3, 4])}
         else:
             svc = {"mode": "seq", "seq": [rng.randint(0, 5) for _ in range(rng.randint(2, 5))]}
-        return {"kind": kind, "conc": conc, "policy": gen_policy_cfg(rng), "svc": svc}
+        pol = gen_policy_cfg(rng)
+        st = {"kind": kind, "conc": conc, "policy": pol, "svc": svc}
+        if pol["type"] == "fifo" and rng.random() < 0.5:
+            st["via_queue_capacity"] = True
+        return st
     if kind in ("driver", "reneging"):
         svc = {"mode": "const", "ticks": rng.choice([0, 1, 2, 3])} if rng.random() < 0.5 else {"mode": "item"}
-        st = {"kind": kind, "limit": lim, "policy": gen_policy_cfg(rng), "svc": svc}
+        pol = gen_policy_cfg(rng)
+        if kind == "reneging" and (avoid_shift or rng.random() < 0.7):
+            pol = {"type": "fifo", "cap": None}     # avoidance: the policy argument is ignored today (recorded finding)
+        st = {"kind": kind, "limit": lim, "policy": pol, "svc": svc}
         if kind == "reneging":
             st["patience_ticks"] = None if rng.random() < 0.3 else rng.randint(0, 8)
         return st
     if kind == "shifted":
         if avoid_shift:
-            end = rng.randint(4, 40)
+            # avoidance: capacity never rises under backlog and the first arrival sees the shift of t=0
+            end = rng.randint(4, 40) if idx == 0 else 100_000
             shifts = [[0, end, 1]]
             default = 0
         else:
@@ -162,14 +175,20 @@ def gen_stage(rng, kind, serial, avoid_shift):
                 shifts.append([t, t + d, rng.choice([0, 0, 1, 1, 2, 3]) if not serial else rng.choice([0, 1, 1])])
                 t += d + rng.choice([0, 0, rng.randint(1, 5)])
             default = rng.choice([0, 0, 1]) if not serial else rng.choice([0, 0, 1])
-        return {"kind": kind, "shifts": shifts, "default": default, "policy": gen_policy_cfg(rng),
+        pol = gen_policy_cfg(rng)
+        if avoid_shift or rng.random() < 0.7:
+            pol = {"type": "fifo", "cap": None}     # avoidance: the policy argument is ignored today (recorded finding)
+        return {"kind": kind, "shifts": shifts, "default": default, "policy": pol,
                 "svc": {"mode": "const", "ticks": rng.randint(1, 4)}}
     if kind == "pooled":
         return {"kind": kind, "pool": 1 if serial else rng.randint(1, 3), "cycle_ticks": rng.choice([0, 1, 2, 2, 3, 5]),
                 "qcap": rng.choice([0, 0, 1, 2, 3])}
     if kind == "batch":
-        return {"kind": kind, "size": rng.randint(1, 5), "proc_ticks": rng.randint(0, 4),
-                "timeout_ticks": rng.choice([0, 0, rng.randint(1, 8), rng.randint(1, 8)])}
+        st = {"kind": kind, "size": rng.randint(1, 5), "proc_ticks": rng.randint(0, 4),
+              "timeout_ticks": rng.choice([0, 0, rng.randint(1, 8), rng.randint(1, 8)])}
+        if avoid_shift and st["size"] == 1:
+            st["timeout_ticks"] = 0                 # avoidance: batch of one with a timeout (recorded finding)
+        return st
     if kind == "conveyor":
         return {"kind": kind, "transit_ticks": rng.randint(0, 5), "cap": rng.choice([0, 0, 1, 2, 3])}
     if kind == "gate":
@@ -216,7 +235,7 @@ def gen_pipeline(rng, tier, seed):
     k0 = rng.choice(kinds)
     stages = [gen_stage(rng, k0, serial, avoid)]
     if rng.random() < 0.3:
-        stages.append(gen_stage(rng, rng.choice(kinds), serial, avoid))
+        stages.append(gen_stage(rng, rng.choice(kinds), serial, avoid, idx=1))
     n = rng.randint(2, 40 if tier == "quick" else 300) if rng.random() < 0.85 else rng.randint(2, 6)
     span = rng.randint(1, 30)
     cand = sorted({rng.randint(0, span) for _ in range(rng.randint(1, 6))})
@@ -424,11 +443,6 @@ def _normalise(sc):
     out["arrivals"] = arr
     out["ctl"] = [{"t": c.get("tick", 0) * TICK, "stage": c.get("stage", 0), "limit": c.get("limit", 1)}
                   for c in sc.get("ctl", [])]
-    for st in out["stages"]:
-        st.setdefault("default", 0)
-        for k in ("qcap", "cap", "timeout_ticks"):
-            if st["kind"] in ("pooled", "gate", "conveyor", "batch") and k in ("qcap", "cap", "timeout_ticks"):
-                st.setdefault(k, 0)
     return out
 
 
@@ -477,12 +491,7 @@ def run_pipeline(sc):
     sim = Simulation(entities=pipe.entities(), end_time=Instant(horizon))
     for e in pipe.initial_events():
         sim.schedule(e)
-    inst = {"offers": [], "t": -1}
-
-    def on_event(ev, mon):
-        pipe.on_event(ev, mon)
-
-    mon = Monitor(sim, cap=30_000, spin_cap=4_000, invariant=on_event)
+    mon = Monitor(sim, cap=30_000, spin_cap=4_000, invariant=pipe.on_event)
     sim.control.on_time_advance(pipe.on_time_advance)
     status, payload = run_sim(sim)
     cut = False
@@ -510,9 +519,8 @@ def run_pipeline(sc):
     if len(pipe.stages) > 1:
         counters["probe.two_stage"] = 1
     offered = len(pipe.stages[0].state)
-    contention = any(any(s in ("waiting", "rejected", "expired", "dropped", "reneged", "rejected-after-dequeue")
-                         for s in st.state.values()) or getattr(st, "n_waited", 0) for st in pipe.stages) \
-        or ctx.probe.get("probe.waited", 0) > 0
+    contention = any(st.n_waited or any(s in ("waiting", "rejected", "expired", "dropped", "reneged", "rejected-after-dequeue")
+                                        for s in st.state.values()) for st in pipe.stages)
     klass = _klass(sc)
     state = klass + "|" + "|".join(st.abstract() for st in pipe.stages)
     return result(sig=sig, msg=msg, digest=mon.digest, nontrivial=offered >= 3 and bool(contention), counters=counters,
